@@ -186,7 +186,7 @@ def make(shape: Dict[str, Any]) -> Any:
             if shape.get('record_type') is not None:
                 # one record: owner name octet(s), low RDLENGTH octet and rdata symbolic; type, class and TTL fixed (C01 decides their recombination)
                 nm, R = shape.get('name_octets', 1), shape['rdata']
-                payload = ([wire.sym_octet(ctx.int(f'name{i}', 0, 255)) for i in range(nm)] + [wire.Tok(shape['record_type'], 2)]
+                payload = (([wire.sym_octet(ctx.int(f'name{i}', 0, 255)) for i in range(nm)] if nm else [wire.Tok(0, 1)]) + [wire.Tok(shape['record_type'], 2)]
                            + [wire.Tok(0x8001, 2), wire.Tok(0x01020304, 4)]
                            + [wire.Tok(0, 1), wire.sym_octet(ctx.int('rdlength', 0, shape.get('rdata_prefix', 0) + R + 2))]
                            + [wire.Tok(7, 1) for _ in range(shape.get('rdata_prefix', 0))] + [wire.sym_octet(ctx.int(f'rdata{i}', 0, 255)) for i in range(R)])
@@ -281,7 +281,7 @@ def obligations(tier: str) -> List[Obligation]:
             obs.append(Obligation(f'decode[{name};payload={p}]', make(shape), 'decode', shape, timeout=280 if tier == 'quick' else 1500))
     rts = [('A', 1, 1, 3), ('AAAA', 28, 14, 2), ('PTR', 12, 0, 3), ('TXT', 16, 0, 3), ('SRV', 33, 6, 2), ('HINFO', 13, 0, 2), ('NSEC', 47, 0, 3), ('unknown', 99, 0, 3)]
     for name, t, prefix, R in rts:
-        for nm in ((1,) if tier == 'quick' else (1, 2)):
+        for nm in (((0,) if name in ('AAAA', 'HINFO') else (1,)) if tier == 'quick' else (1, 2)):
             shape = {'payload': 0, 'counts': [0, 1, 0, 0], 'flags': 0x8400, 'record_type': t, 'rdata_prefix': prefix, 'rdata': R if tier == 'quick' or nm == 2 else R + 1, 'name_octets': nm}
             obs.append(Obligation(f'decode[record {name};name={nm};rdata={prefix}+{shape["rdata"]}]', make(shape), 'decode-record', shape, timeout=280 if tier == 'quick' else 1500))
     obs.append(Obligation('label-of-any-legal-length', make_long_label({}), 'long-label', {}, timeout=120))
